@@ -287,9 +287,75 @@ def native_replay(o=None):
     return bad, '\n'.join(lines) or 'real over_time on 3 steps given out of order (built-in + custom variables reading a user column, one call and two calls): every row consistent'
 
 
+def mixed_table_cases():
+    """the trace contracts treat array contents as opaque values; this runs the real over_time + real AurelCore on tables whose
+    steps hold their arrays in different dtypes (whole-number data as int64 or float32 at some steps, float64 at others), 5 steps
+    in scrambled row order: stored variables == fresh per-step calculation, estimates == estimator of the stored array, input
+    columns preserved"""
+    import warnings
+    import aurel
+    par = dict(Nx=6, Ny=7, Nz=8, xmin=0., ymin=0., zmin=0., dx=0.5, dy=0.5, dz=0.5)
+    bad, n = [], 0
+    with warnings.catch_warnings():
+        warnings.simplefilter('ignore')
+        fd = aurel.FiniteDifference(par, fd_order=2, verbose=False)
+        x, y = fd.x, fd.y
+        one = np.ones_like(x)
+        its = [8, 0, 4, 16, 12]
+
+        def metric(it, kind):
+            if kind == 'int':       # exact whole-number data held in an integer array
+                return np.array([[2 * one, 0 * one, 0 * one], [0 * one, 3 * one, 0 * one], [0 * one, 0 * one, 1 * one]]).astype(np.int64)
+            g = np.array([[1 + 0.01 * it + 0.3 * x * x, 0.1 * x, 0 * x], [0.1 * x, 1.5 + 0.2 * y, 0 * x], [0 * x, 0 * x, 2 + 0.05 * it * x]])
+            return g.astype(np.float32) if kind == 'f32' else g
+        patterns = {'integer arrays at the earliest step': {0: 'int'}, 'integer arrays at a middle step': {8: 'int'}, 'float32 at the earliest step': {0: 'f32'},
+                    'integer arrays at the last step': {16: 'int'}, 'float64 throughout': {}}
+        for pname, pat in patterns.items():
+            gs = {it: metric(it, pat.get(it, 'f64')) for it in its}
+            rho = {it: ((3 * one).astype(np.int64) if pat.get(it) == 'int' else 1.0 + 0.01 * it + 0.1 * np.cos(x)) for it in its}
+            data = {'it': list(its), 'gammadown3': [gs[it] for it in its], 'rho0': [rho[it] for it in its]}
+            try:
+                out = aurel.over_time(data, fd, vars=['gammadet', 'gammaup3'], estimates=['max', 'min', 'mean'], verbose=False)
+            except Exception as e:
+                bad.append(f'{pname}: over_time raised {type(e).__name__}: {e}')
+                continue
+            if [int(i) for i in out['it']] != sorted(its):
+                bad.append(f'{pname}: rows not ordered by it: {list(out["it"])}')
+                continue
+            for row, it in enumerate(sorted(its)):
+                n += 1
+                rel = aurel.AurelCore(fd, verbose=False)
+                rel.data['gammadown3'], rel.data['rho0'] = gs[it], rho[it]
+                rel.freeze_data()
+                tol = 1e-5 if pat.get(it) == 'f32' else 1e-12
+                for v in ('gammadet', 'gammaup3'):
+                    ref = np.asarray(rel[v], dtype=float)
+                    got = np.asarray(out[v][row], dtype=float)
+                    if got.shape != ref.shape or not np.allclose(got, ref, rtol=tol, atol=tol):
+                        bad.append(f'{pname}: {v} stored for it={it} differs from a fresh calculation on that step (max |difference| '
+                                   f'{np.max(np.abs(got - ref)) if got.shape == ref.shape else "shape"})')
+                for est, f in (('max', np.max), ('min', np.min), ('mean', np.mean)):
+                    if not np.isclose(out[f'gammadet_{est}'][row], f(np.asarray(out['gammadet'][row], dtype=float)), rtol=1e-6, atol=1e-9):
+                        bad.append(f'{pname}: gammadet_{est} at it={it} is {out[f"gammadet_{est}"][row]!r}, the estimator of the stored array gives {f(out["gammadet"][row])!r}')
+                for col, src in (('gammadown3', gs), ('rho0', rho)):
+                    if not np.allclose(np.asarray(out[col][row], dtype=float), np.asarray(src[it], dtype=float), rtol=tol, atol=tol):
+                        bad.append(f'{pname}: input column {col} at it={it} is not preserved (max |difference| {np.max(np.abs(np.asarray(out[col][row], dtype=float) - src[it])):.3g})')
+    return bad, n
+
+
+def mixed_table_obligation(R):
+    t0 = time.time()
+    bad, n = mixed_table_cases()
+    R.bounded.append(dict(function='aurel.time.over_time (real AurelCore)', bound='5 steps in scrambled order x 5 dtype patterns (int64 / float32 / float64 arrays at different steps)'))
+    R.ob('time.over_time:tables whose steps hold arrays of different dtypes -- stored variables == fresh per-step calculation, estimates == estimator of the stored array, input columns preserved',
+         'over_time', 'refuted' if bad else ('bounded-ok' if n else 'undecided'), 'bounded-native', time.time() - t0, '; '.join(bad[:4]) or f'{n} rows compared', bad[:6] or None,
+         bounded='5 steps x 5 dtype patterns', replay=lambda o: (lambda b: (bool(b[0]), '; '.join(b[0][:4]) or 'no difference'))(mixed_table_cases()))
+
+
 def run(R):
     from engine.canary import run_canaries
     run_canaries(R, ('symx',))
+    mixed_table_obligation(R)
     R.assume('A6')
     R.trust('contract of AurelCore used by the driver: rel[v] on a fresh instance holding exactly the step\'s inputs returns F_v(inputs) (properties C01-C10 decide F_v)')
     t0 = time.time()
